@@ -56,3 +56,4 @@ META = {
     "assumptions": ["operand metadata consistent with its capacity (log_delta+log_budget <= max_k), as set_meta_checked enforces", "std::fmt::format and std::backtrace::Backtrace::capture stubbed (anyhow error construction)"],
     "stubs": ["std::fmt::format", "std::backtrace::Backtrace::capture"],
 }
+THOROUGH_SAMPLE = 6
